@@ -11,7 +11,8 @@ CFG = {'level': 'fault_enumeration',
  'level_note': 'Single- and double-tile faults plus consistent chain forgeries on the enumerated shapes; arbitrary multi-tile adversaries are '
                'sampled, not enumerated. Trusts SHA-256 and ref/refmerkle.',
  'nbatch': {'quick': 16, 'thorough': 64},
- 'timeout': {'quick': 400, 'thorough': 3000},
+ 'gomaxprocs': 4,
+ 'timeout': {'quick': 150, 'thorough': 3000},
  'rule': 'fault plan = (tree size, height, index set, consumed tile, mutator); a class is (mutator @ request position / tile level, outcome '
          'rejected|accepted-harmless|violation) or an honest-run shape (height, number of tiles consumed) or a tile-path shape.',
  'floors': {'all': [('fault:forged-chain:k=1:rejected', 1),
@@ -20,3 +21,4 @@ CFG = {'level': 'fault_enumeration',
                     ('path:mutated-rejected', 1)]},
  'assumptions': ['SHA-256 collisions do not occur',
                  'the tile reader contract (ReadTiles returns len(tiles) slices) is honoured by the harness server']}
+CFG['level_text'] += ' Each batch ends with 40 (thorough 400) rounds of honest reads from eight goroutines at mixed tile heights, each with its own reader: every read must succeed with the true hashes.'
